@@ -23,6 +23,23 @@ func fuzzSkip(src string) bool {
 	if len(src) > fuzzMaxInput {
 		return true
 	}
+	// every operator evaluation prints its whole subtree (an eagerly built assertion message in numVal & co.):
+	// a chain of n nested prefix operators costs about n^3 and the step budget counts visits, not time. A run of
+	// more than 64 sign / bracket characters is slow, not a crash - the fuzzing engine would report the worker
+	// it kills as a failing input (it did: 3000 x "+" in a 25 minute campaign)
+	run := 0
+	for _, r := range src {
+		if strings.ContainsRune("+-([{ \t", r) {
+			if r != ' ' && r != '\t' {
+				run++
+			}
+			if run > 64 {
+				return true
+			}
+		} else {
+			run = 0
+		}
+	}
 	for _, w := range fuzzSkipWords {
 		if strings.Contains(src, w) {
 			return true
